@@ -14,6 +14,57 @@ def _dots_writes(it, names):
     return out
 
 
+def _fresh_clock(t):
+    t = drop_lv(t)
+    while t[0] in ('obj', 'post'):
+        t = drop_lv(t[1]) if t[0] == 'obj' else drop_lv(t[1][2][t[2]]) if (t[1][0] == 'call' and isinstance(t[2], int) and t[2] < len(t[1][2])) else t
+        if t[0] == 'post':
+            continue
+        break
+    if t[0] == 'agg' and t[1] == VCLOCK and len(t[3]) == 1:      # VClock { dots: BTreeMap::new() }
+        t = drop_lv(t[3][0][1])
+    return t[0] == 'call' and call_name(t) in ('default', 'new') and not t[2]
+
+
+def inline_apply_sites(facts, body, it, local_clock=False):
+    """`apply` written out: stores of (actor, counter) of one dot into the dots of self (or, local_clock, of a clock that
+    starts empty), each judged like VClock::apply — must when the clock's counter for the actor is smaller, never when it is
+    larger.  -> list of dict(bb, call, gate, res, frame, errs)."""
+    out = []
+    for bb, c in sorted(it.calls.items()):
+        if call_name(c.term) != 'insert' or len(c.args) != 3 or not c.args[0].is_mut_ref:
+            continue
+        m0 = versionless(c.args[0].val)
+        if not (m0[0] == 'field' and m0[2] == 'dots'):
+            continue
+        if local_clock:
+            if not (c.args[0].loc is not None and c.args[0].loc[0][0] == 'L' and _fresh_clock(c.args[0].val[1] if c.args[0].val[0] == 'field' else m0[1])):
+                continue
+        elif param_path(m0) != (1, ('dots',)):
+            continue
+        fr = iteration_frame(it, bb)
+        found, res = [], {}
+        cls = gate_classifier(found, param=None if local_clock else 1)
+        for o in TOTAL:
+            rc = Reach(facts, body, Evaluator(facts, classify=cls, assumption={'gate': o}))
+            if fr:
+                res[o] = (bb in rc._reach(fr[0], {fr[1]}), rc.must_pass([bb], start=fr[0], stops=(fr[1],)))
+            else:
+                res[o] = (bb in rc.reachable, rc.must_pass([bb]))
+        if not found:
+            continue
+        g = found[0]
+        errs = []
+        if versionless(c.args[1].val) != ('field', g['dot'], g.get('kf', 'actor')) or versionless(c.args[2].val) != ('field', g['dot'], g.get('vf', 'counter')):
+            errs.append('what is stored is not (actor, counter) of the compared dot')
+        if not res[LT][1]:
+            errs.append('a dot that is ahead of the clock can be skipped')
+        if res[GT][0]:
+            errs.append('a dot that is behind the clock overwrites the larger counter')
+        out.append({'bb': bb, 'call': c, 'gate': g, 'res': res, 'frame': fr, 'errs': errs})
+    return out
+
+
 def _entry_model(it):
     """`self.dots.entry(k)` written with the Entry API: the entry term, its key, the discriminant values of the two
     arms, and the insert sites of each arm.  Occupied: the stored counter is `OccupiedEntry::get`; Vacant: get(k) == 0."""
@@ -259,6 +310,50 @@ def vc_intersect(ctx):
             if tv[0] == 'tuple' and len(tv[1]) == 2:
                 ins.append((bb_, c_, tv[1][0], tv[1][1]))
     if not ins:
+        # the other spelling: a copy of one clock from which every entry the other clock does not hold with the same counter is
+        # dropped (`c = left.clone(); c.dots.retain(|actor, n| right.get(actor) == *n); c`)
+        for bb_, c_ in sorted(it.calls.items()):
+            if call_name(c_.term) not in ('retain', 'retain_mut') or len(c_.args) != 2:
+                continue
+            m0 = versionless(c_.args[0].val)
+            # (a clone is the value it copies; the receiver must be a local copy, not the borrowed argument itself)
+            if not (m0[0] == 'field' and m0[2] == 'dots' and m0[1][0] == 'param' and c_.args[0].loc is not None and c_.args[0].loc[0][0] == 'L'):
+                continue
+            side = m0[1][1]
+            for clo, mapping in closure_bindings(c_.term):
+                cb = facts.cb(clo[1])
+                if cb is None:
+                    continue
+                ctx.analysed.add(cb.key)
+                hit = []
+
+                def classify(a, b, t, mapping=mapping):
+                    sa, sb = subst(a, mapping), subst(b, mapping)
+                    for x, y, orient in ((sa, sb, 'fwd'), (sb, sa, 'rev')):
+                        cg = clock_get_of(x)
+                        if cg is not None:
+                            k, v = versionless(cg[1]), versionless(y)
+                            pc = param_path(cg[0])
+                            if k[0] == 'field' and k[2] == '0' and k[1][0] == 'item' and v == ('field', k[1], '1') and pc and pc[0] != side and pc[0] in (1, 2):
+                                hit.append(1)
+                                return ('eq', orient)
+                    return None
+                keep = {o: closure_value(facts, cb, classify=classify, assumption={'eq': o}) for o in TOTAL}
+                rv = drop_lv(it.ret)
+                ret_ok = rv[0] == 'obj' and rv[1] == ('param', side) and len(rv[2]) == 1 and rv[2][0][0] == 'dots' \
+                    and rv[2][0][1][0] == 'post' and rv[2][0][1][1] == drop_lv(c_.term)
+                errs = []
+                if not hit:
+                    errs.append('the kept entries are not decided by comparing the other clock\'s counter with the entry\'s own')
+                elif keep[EQ] is not True:
+                    errs.append('an entry equal on both sides is not kept')
+                elif keep[LT] is not False or keep[GT] is not False:
+                    errs.append('an entry whose counters differ is kept')
+                if not ret_ok:
+                    errs.append('the filtered copy is not what is returned')
+                ctx.check(not errs, 'intersection', body, 'a copy of one clock keeping exactly the entries equal in the other', errs[0] if errs else '',
+                          line=c_.line, details={'ord(other.get(actor), own counter) -> kept': {str(k): v for k, v in keep.items()}})
+                return
         ctx.fail('intersection', body, 'nothing is ever inserted into the result')
         return
     bb, c, ins_k, ins_v = ins[0]
@@ -330,6 +425,76 @@ def vc_without(ctx):
               'clone_without does not return a copy of self reduced by reset_remove(base) on every path (returns %s)' % fmt(it.ret, 4))
 
 
+def _glb_loop_form(ctx, facts, body, it):
+    """glb as a loop over the own entries: each is re-inserted (into the map that becomes self.dots) with the smaller of its
+    counter and other.get(actor) — chosen by a comparison or a `min` call — exactly when that minimum is not 0."""
+    from .loops import loops_of, item_filter, item_derived
+    for lp in loops_of(it):
+        if not lp.whole_over(1, ('dots',)) or lp.early_exits() or lp.source()[2]:
+            continue
+        flt = item_filter(facts, it, lp, ('dots',))
+        if not flt or flt[0] != 'keep' or len(flt[1]) != 1:
+            continue
+        bb = flt[1][0]
+        c = it.calls[bb]
+        if len(c.args) == 3:
+            kt, vt, vi = c.args[1].val, c.args[2].val, 2
+        else:
+            continue
+        k = versionless(kt)
+        errs = []
+        if not (k[0] == 'field' and k[2] == '0' and item_derived(kt, lp)):
+            errs.append('the entry is not stored under its own actor')
+        item = k[1] if k[0] == 'field' else None
+
+        def kind_of(t):
+            t = drop_lv(t)
+            cg = clock_get_of(t)
+            if cg is not None and param_path(cg[0]) and param_path(cg[0])[0] == 2 and versionless(cg[1]) == ('field', item, '0'):
+                return 'their'
+            if versionless(t) == ('field', item, '1'):
+                return 'own'
+            if is_call(t, 'min', local=False) and len(t[2]) == 2 and {kind_of(t[2][0]), kind_of(t[2][1])} == {'their', 'own'}:
+                return 'min'
+            return None
+
+        def classify(a, b, t):
+            ka, kb = kind_of(a), kind_of(b)
+            if (ka, kb) == ('their', 'own'):
+                return ('cmp', 'fwd')
+            if (ka, kb) == ('own', 'their'):
+                return ('cmp', 'rev')
+            return None
+        want = {LT: {'their'}, GT: {'own'}, EQ: {'their', 'own'}}
+        chosen = {}
+        for o in TOTAL:
+            rc = Reach(facts, body, Evaluator(facts, classify=classify, assumption={'cmp': o}))
+            ks = set()
+            for a_ in rc.arg_terms(bb, vi):
+                for x in phi_alts(drop_lv(a_)):
+                    ks.add(kind_of(x))
+            chosen[o] = sorted(str(x) for x in ks)
+            if not ks or not (ks <= want[o] | {'min'}):
+                errs.append('the stored counter is not the smaller of the own counter and other.get(actor) (their %s own -> %s)' % (o, sorted(str(x) for x in ks)))
+                break
+        vv = versionless(vt)
+
+        def atom(t):
+            return 'min' if versionless(t) == vv else None
+        tab = {}
+        for val in (0, 1, 7):
+            rc = Reach(facts, body, Evaluator(facts, bool_atom=atom, classify=lambda a, b, t: None, assumption={'min': val}))
+            tab[val] = (lp.may(rc, [bb]), lp.must(rc, [bb]))
+        if tab[0][0]:
+            errs.append('an entry whose minimum is 0 is kept (a zero counter is stored)')
+        if not tab[7][1] or not tab[1][1]:
+            errs.append('an entry with a non-zero minimum is dropped')
+        ctx.check(not errs, 'glb', body, 'stores min(own, other.get(actor)), drops the entry exactly when it is 0 (loop form)', errs[0] if errs else '',
+                  line=c.line, details={'ord(their, own) -> stored': chosen, 'min -> (keep may, must)': {str(k_): v for k_, v in tab.items()}})
+        return True
+    return False
+
+
 @rule('VC-GLB', {
     'C10': 'glb is the pointwise minimum; a zero result must be dropped (no API call stores a zero counter)',
 }, floor=1)
@@ -369,7 +534,7 @@ def vc_glb(ctx):
                 # in-place form: the closure returns keep?, and overwrites the counter through its &mut parameter
                 item = ('item', c.term[2][0])
                 src_ok = whole_iteration_over(c.term[2][0], 1, ('dots',))
-                for val in (0, 7):
+                for val in (0, 1, 7):
                     ev = Evaluator(facts, bool_atom=atom, assumption={'min': val})
                     r_ = ev.ev(cit.ret)
                     res[val] = (r_ is not True, r_ is not False)
@@ -377,7 +542,7 @@ def vc_glb(ctx):
             else:
                 none_s = ret_sites_by(cit, lambda v: is_variant(v, 'option::Option', 'None'))
                 some_s = ret_sites_by(cit, lambda v: is_variant(v, 'option::Option', 'Some'))
-                for val in (0, 7):
+                for val in (0, 1, 7):
                     rc = Reach(facts, cb, Evaluator(facts, bool_atom=atom, assumption={'min': val}))
                     res[val] = (any(b in rc.reachable for b, _ in none_s), any(b in rc.reachable for b, _ in some_s))
             det = {'min -> (drop may, keep may)': res}
@@ -399,7 +564,7 @@ def vc_glb(ctx):
             errs = []
             if res[0][1] or not res[0][0]:
                 errs.append('an entry whose minimum is 0 is kept (a zero counter is stored)')
-            if res[7][0] or not res[7][1]:
+            if res[7][0] or not res[7][1] or res[1][0] or not res[1][1]:
                 errs.append('an entry with a non-zero minimum is dropped')
             if not kept_ok:
                 errs.append('the stored counter is not the computed minimum')
@@ -410,6 +575,10 @@ def vc_glb(ctx):
             else:
                 ctx.ok('glb', cb, 'stores min(own, other.get(actor)), drops the entry exactly when it is 0', line=cb.line, details=det)
             done = True
+    if not done:
+        done = _glb_loop_form(ctx, facts, body, it)
+        if done:
+            return
     if not done:
         ctx.shape('glb', body, 'no filter over self.dots computing the pointwise minimum')
     else:
@@ -511,29 +680,16 @@ def vc_merge(ctx):
     if not sites:
         # apply written out in the loop: for every entry of other, its counter is stored for its actor whenever it is larger than
         # self's counter for that actor, and never when it is smaller
-        for bb, c in _dots_writes(it, ('insert',)):
-            fr = iteration_frame(it, bb)
-            if fr is None or len(c.args) != 3:
+        for site in inline_apply_sites(facts, body, it):
+            bb, c, fr, g, res = site['bb'], site['call'], site['frame'], site['gate'], site['res']
+            if fr is None:
                 continue
-            found, res = [], {}
-            for o in TOTAL:
-                rc = Reach(facts, body, Evaluator(facts, classify=gate_classifier(found), assumption={'gate': o}))
-                res[o] = (bb in rc._reach(fr[0], {fr[1]}), rc.must_pass([bb], start=fr[0], stops=(fr[1],)))
-            if not found:
-                continue
-            g = found[0]
             src = as_item(g['dot'])
             from .loops import loop_of_block
             lp = loop_of_block(it, bb)
-            errs = []
+            errs = list(site['errs'])
             if not (src is not None and whole_iteration_over(src, 2)) or lp is None or lp.early_exits():
-                errs.append('the loop does not range over every dot of other (%s; early exits %s)' % (fmt(src, 4) if src else None, lp.early_exits() if lp else None))
-            if versionless(c.args[1].val) != ('field', g['dot'], g.get('kf', 'actor')) or versionless(c.args[2].val) != ('field', g['dot'], g.get('vf', 'counter')):
-                errs.append('what is stored is not (actor, counter) of the compared dot')
-            if not res[LT][1]:
-                errs.append('a dot of other that is ahead of self can be skipped by merge')
-            if res[GT][0]:
-                errs.append('a dot of other that is behind self overwrites the larger counter')
+                errs.insert(0, 'the loop does not range over every dot of other')
             if not Reach(facts, body, Evaluator(facts)).must_pass([fr[1]]):
                 errs.append('the loop over other is not reached on every path')
             ctx.check(not errs, 'merge', body, 'every dot of other is stored when ahead of self, never when behind (apply written inline)',
@@ -701,6 +857,19 @@ def vc_conc(ctx):
     for o in PARTIAL:
         truth[o] = ret_value(facts, body, Evaluator(facts, classify=classify, assumption={'pc': o}))
     ok = truth == {LT: False, EQ: False, GT: False, NONE: True}
+    if not ok:
+        # without partial_cmp: the two pointwise dominance scans themselves (`!a.dominates(b) && !b.dominates(a)`)
+        seen = set()
+
+        def atom(t):
+            k = scan_kind(facts, t, ctx.analysed)
+            if k:
+                seen.add(k[1] if isinstance(k, tuple) else k)
+            return k
+        worlds = {EQ: (True, True), GT: (True, False), LT: (False, True), NONE: (False, False)}
+        truth2 = {o: ret_value(facts, body, Evaluator(facts, bool_atom=atom, assumption={'ge': ge, 'le': le})) for o, (ge, le) in worlds.items()}
+        if seen == {'ge', 'le'} and truth2 == {LT: False, EQ: False, GT: False, NONE: True}:
+            ok, truth = True, truth2
     ctx.check(ok, 'concurrent', body, 'true exactly under None', 'concurrent() is true under %s, expected exactly {None}'
               % sorted(k for k, v in truth.items() if v), details={'truth': truth})
 
